@@ -91,7 +91,18 @@ func (x *c12) gppSpec(r sxRun, fn *ssa.Function, enc bool) []specItem {
 	default:
 		add(mc, false, "the block mode is "+M.S+", not "+modeName+" over aes.NewCipher", nil)
 	}
-	if k := M.A[0]; k.Op == "const" && k.S == string(c12Key) {
+	// key and iv must be THE key variable and a buffer of this call: any other
+	// package-level variable the evaluation touched is a shared value that can
+	// diverge or be modified between calls
+	var otherGlobals []string
+	for _, gname := range sx.ModGlobals {
+		if gname != "GPPP_AES_KEY" && !has(otherGlobals, gname) {
+			otherGlobals = append(otherGlobals, gname)
+		}
+	}
+	if len(otherGlobals) > 0 {
+		add(kc, false, "the computation also reads the package-level variable(s) "+strings.Join(otherGlobals, ", ")+": key and iv must be the variable GPPP_AES_KEY and a buffer allocated in this call (a shared or second variable can diverge or be modified between calls)", nil)
+	} else if k := M.A[0]; k.Op == "const" && k.S == string(c12Key) {
 		add(kc, true, "the 32 bytes of GPPP_AES_KEY's initialiser (a variable nothing writes)", nil)
 	} else {
 		add(kc, false, "AES is keyed with "+k.Short()+", not with the published key held by GPPP_AES_KEY", k)
